@@ -59,7 +59,21 @@ func (fakeGetter) ToDiscoveryClient() (discovery.CachedDiscoveryInterface, error
 }
 func (fakeGetter) ToRESTMapper() (meta.RESTMapper, error) { return nil, nil }
 
-func H14Gate() {
+func H14Gate() { h14(0) }
+
+// H14Deep: parent -> mid -> leaf; the middle chart may have no schema while the
+// leaf has one. H14Alias: the subchart is imported under an alias and switched
+// on by a condition under that alias.
+func H14Deep()  { h14(1) }
+func H14Alias() { h14(2) }
+
+func newSub(name string) *chart.Chart {
+	c := &chart.Chart{Metadata: &chart.Metadata{Name: name, Version: "0.1.0", APIVersion: chart.APIVersionV2}}
+	c.Templates = []*chart.File{{Name: "templates/" + name + ".yaml", Data: []byte(cmDoc(name+"cm", "x", ""))}}
+	return c
+}
+
+func h14(tree int) {
 	schemaCalls = nil
 	w := newWorld(newFaultPlan(0, 0, "kube"))
 	upgrade := ndBool("upgrade")
@@ -69,20 +83,34 @@ func H14Gate() {
 	before := histString(w.history())
 	w.kube.log, w.kube.writes, w.store.writes = nil, nil, nil
 
-	// parent + subcharts s1 (always enabled) and s2 (enabled by condition s2.enabled)
 	parent := mkChart(1, false)
-	s1 := &chart.Chart{Metadata: &chart.Metadata{Name: "s1", Version: "0.1.0", APIVersion: chart.APIVersionV2}}
-	s2 := &chart.Chart{Metadata: &chart.Metadata{Name: "s2", Version: "0.1.0", APIVersion: chart.APIVersionV2}}
-	s1.Templates = []*chart.File{{Name: "templates/s1.yaml", Data: []byte(cmDoc("s1cm", "x", ""))}}
-	s2.Templates = []*chart.File{{Name: "templates/s2.yaml", Data: []byte(cmDoc("s2cm", "x", ""))}}
-	parent.Metadata.Dependencies = []*chart.Dependency{
-		{Name: "s1", Version: "0.1.0"},
-		{Name: "s2", Version: "0.1.0", Condition: "s2.enabled"},
-	}
-	parent.SetDependencies(s1, s2)
+	// charts: name -> (has schema, values valid, enabled)
+	names := []string{"c", "s1", "s2"}
 	hasSchema := map[string]bool{"c": ndBool("schema.parent"), "s1": ndBool("schema.s1"), "s2": ndBool("schema.s2")}
 	valid := map[string]bool{"c": ndBool("valid.parent"), "s1": ndBool("valid.s1"), "s2": ndBool("valid.s2")}
-	s2enabled := ndBool("s2.enabled")
+	enabled := map[string]bool{"c": true, "s1": true, "s2": true}
+	s1, s2 := newSub("s1"), newSub("s2")
+	var vals map[string]interface{}
+	switch tree {
+	case 0: // flat: s1 always on, s2 switched by s2.enabled
+		enabled["s2"] = ndBool("s2.enabled")
+		parent.Metadata.Dependencies = []*chart.Dependency{{Name: "s1", Version: "0.1.0"}, {Name: "s2", Version: "0.1.0", Condition: "s2.enabled"}}
+		parent.SetDependencies(s1, s2)
+		vals = map[string]interface{}{"ok": valid["c"], "s1": map[string]interface{}{"ok": valid["s1"]},
+			"s2": map[string]interface{}{"ok": valid["s2"], "enabled": enabled["s2"]}}
+	case 1: // deep: c -> s1 -> s2
+		parent.Metadata.Dependencies = []*chart.Dependency{{Name: "s1", Version: "0.1.0"}}
+		s1.Metadata.Dependencies = []*chart.Dependency{{Name: "s2", Version: "0.1.0"}}
+		s1.SetDependencies(s2)
+		parent.SetDependencies(s1)
+		vals = map[string]interface{}{"ok": valid["c"], "s1": map[string]interface{}{"ok": valid["s1"], "s2": map[string]interface{}{"ok": valid["s2"]}}}
+	case 2: // alias: s1 imported as "db", switched by db.enabled; s2 plain
+		enabled["s1"] = ndBool("db.enabled")
+		parent.Metadata.Dependencies = []*chart.Dependency{{Name: "s1", Version: "0.1.0", Alias: "db", Condition: "db.enabled"}, {Name: "s2", Version: "0.1.0"}}
+		parent.SetDependencies(s1, s2)
+		vals = map[string]interface{}{"ok": valid["c"], "db": map[string]interface{}{"ok": valid["s1"], "enabled": enabled["s1"]},
+			"s2": map[string]interface{}{"ok": valid["s2"]}}
+	}
 	if hasSchema["c"] {
 		parent.Schema = schemaFor("c")
 	}
@@ -92,15 +120,10 @@ func H14Gate() {
 	if hasSchema["s2"] {
 		s2.Schema = schemaFor("s2")
 	}
-	withCRD := ndBool("crd")
+	withCRD := tree == 0 && ndBool("crd")
 	if withCRD {
 		parent.Files = append(parent.Files, &chart.File{Name: "crds/crd.yaml",
 			Data: []byte("apiVersion: apiextensions.k8s.io/v1\nkind: CustomResourceDefinition\nmetadata:\n  name: crd1\n")})
-	}
-	vals := map[string]interface{}{
-		"ok": valid["c"],
-		"s1": map[string]interface{}{"ok": valid["s1"]},
-		"s2": map[string]interface{}{"ok": valid["s2"], "enabled": s2enabled},
 	}
 	skip := ndBool("skipSchemaValidation")
 	cfg := w.config()
@@ -115,10 +138,9 @@ func H14Gate() {
 		i.ReleaseName, i.Namespace, i.SkipSchemaValidation = relName, "default", skip
 		_, err = i.Run(parent, vals)
 	}
-	enabled := map[string]bool{"c": true, "s1": true, "s2": s2enabled}
 	var violators []string
 	wantCalls := 0
-	for _, c := range []string{"c", "s1", "s2"} {
+	for _, c := range names {
 		if enabled[c] && hasSchema[c] {
 			wantCalls++
 			if !valid[c] {
@@ -126,13 +148,17 @@ func H14Gate() {
 			}
 		}
 	}
-	vTag(fmt.Sprintf("upgrade=%v crd=%v violators=%v skip=%v", upgrade, withCRD, violators, skip))
+	vTag(fmt.Sprintf("tree=%d upgrade=%v crd=%v violators=%v skip=%v", tree, upgrade, withCRD, violators, skip))
 	rejected := !skip && len(violators) > 0
 	vObservef("err=%v", err)
 	vAssert("gate/error-iff-an-enabled-chart-violates-its-schema", (err != nil) == rejected)
 	if rejected {
 		for _, c := range violators {
-			vAssert("gate/error-names-the-chart", strings.Contains(err.Error(), c+":\n"))
+			shown := c
+			if tree == 2 && c == "s1" {
+				shown = "db"
+			}
+			vAssert("gate/error-names-the-chart", strings.Contains(err.Error(), shown+":\n"))
 		}
 		vAssert("gate/nothing-stored", len(w.store.writes) == 0 && histString(w.history()) == before)
 		vAssert("gate/nothing-sent-to-cluster", len(w.kube.writes) == 0)
@@ -147,5 +173,5 @@ func H14Gate() {
 			}
 		}
 	}
-	vObservef("upgrade=%v crd=%v skip=%v violators=%v err=%v writes=%d", upgrade, withCRD, skip, violators, err != nil, len(w.kube.writes))
+	vObservef("tree=%d upgrade=%v crd=%v skip=%v violators=%v err=%v writes=%d", tree, upgrade, withCRD, skip, violators, err != nil, len(w.kube.writes))
 }
